@@ -1,6 +1,7 @@
 """Obligation / finding protocol shared by all rules (DESIGN.md section 4)."""
 import collections
 import json
+import re
 import os
 import time
 
@@ -62,7 +63,7 @@ class Ctx:
         """one obligation of rule `rid` examined and NOT discharged"""
         r = self.rules[rid]
         r.instances += 1
-        full = '%s/%s/%s' % (self.prop, rid, key)
+        full = '%s/%s/%s' % (self.prop, rid, re.sub(r'\s+', '_', key))
         self.findings.append({'rule': rid, 'key': full, 'what': what, 'site': site, 'detail': detail})
         if len(r.samples) < 6:
             r.samples.append({'rule': rid, 'obligation': what, 'site': site, 'verdict': 'NOT discharged', 'key': full})
